@@ -97,9 +97,34 @@ fn pos_ledger(pos: &str, lit: &str) -> Option<String> {
     })
 }
 
+/// the library entry `expr::Amount::try_from(&str)` (`unary_amount`: optional `-`, number and commodity in either order):
+/// `tryfrom` hands it `<lit> USD`, `tryfromneg` hands it `-<lit> USD`
+fn tryfrom_record(text: String) -> String {
+    let r = sx::catch(move || match expr::Amount::try_from(text.as_str()) {
+        Err(_) => "parse-err".to_string(),
+        Ok(a) => {
+            if a.commodity != "USD" {
+                return "shape other-commodity".to_string();
+            }
+            let printed = format!("{} {}", a.value, a.commodity);
+            format!("{} fmt={}", ok_rec(&a.value), enc(&printed))
+        }
+    });
+    match r {
+        Ok(s) => s,
+        Err(m) => format!("panic {}", enc(&m)),
+    }
+}
+
 fn pos_record(pos: &str, lit: &str) -> String {
     if pos == "pricedb" {
         return pricedb_record(lit);
+    }
+    if pos == "tryfrom" {
+        return tryfrom_record(format!("{} USD", lit));
+    }
+    if pos == "tryfromneg" {
+        return tryfrom_record(format!("-{} USD", lit));
     }
     let text = match pos_ledger(pos, lit) {
         Some(t) => t,
